@@ -392,7 +392,21 @@ NoPatch == [j \in 1..SYM_BITS |-> -1]
 MaxPatched(pb) == IF \E j \in 1..SYM_BITS : pb[j] >= 0
                   THEN CHOOSE j \in 1..SYM_BITS : pb[j] >= 0 /\ \A q \in (j + 1)..SYM_BITS : pb[q] < 0
                   ELSE 0
-PatchesWellFormed(opl) == MaxPatched(PatchBits(opl, 1, NoPatch)) <= LeadBits(opl, 1, 0)
+\* entenc.h: "at least _nbits bits must have ALREADY been encoded using probabilities that are an exact
+\* power of two": the leading exact ops BEFORE the patch call must cover its n bits
+RECURSIVE PatchesWF(_, _)
+PatchesWF(opl, i) ==
+  IF i > Len(opl) THEN TRUE
+  ELSE (opl[i].k = "patch" => opl[i].a[2] <= LeadBits(SubSeq(opl, 1, i - 1), 1, 0)) /\ PatchesWF(opl, i + 1)
+PatchesWellFormed(opl) == PatchesWF(opl, 1)
+\* "The encoder can verify the number of encoded bits is sufficient": a patch of n bits issued when fewer
+\* than n bits have been coded (tell-1 < n, tell rounds up) must be refused, i.e. set the error flag
+RECURSIVE PatchRefusedOK(_, _, _)
+PatchRefusedOK(e, opl, i) ==
+  IF i > Len(opl) THEN TRUE
+  ELSE LET e1 == EncApply(e, opl[i]) IN
+       /\ (opl[i].k = "patch" /\ e.err = 0 /\ Tell(e) - 1 < opl[i].a[2]) => e1.err # 0
+       /\ PatchRefusedOK(e1, opl, i + 1)
 \* value of a k-bit field whose first bit is bit number o+1, after patching
 RECURSIVE MergeBits(_, _, _, _, _)
 MergeBits(v, k, o, pb, j) ==       \* j = 1..k, most significant first
